@@ -71,6 +71,7 @@ def check(run):
         run.guard("C09.2.order-taint", cfg, lambda: rule_taint(run, F, cfg))
         run.guard("C09.3.no-clock-or-address", cfg, lambda: rule_nondeterminism(run, F, cfg))
         run.guard("C09.4.fixpoint", cfg, lambda: rule_fixpoint(run, F, cfg))
+        run.guard("C09.4.fixpoint", cfg + "/no-carry-over", lambda: rule_no_carry(run, F, cfg))
 
 
 def ser_impl(F, ty):
@@ -359,3 +360,20 @@ def rule_fixpoint(run, F, cfg):
            "(de-duplication, filtering) makes the reloaded engine serialize differently",
            site=ins.loc(leak[0]) if leak else ins.loc(0), config=cfg,
            detail=f"store blocks {stores}; exits reachable without a store: {leak}")
+
+
+def rule_no_carry(run, F, cfg):
+    """Engine::deserialize installs the decoded blocker / cosmetic cache as they are: no field of the decoded
+    values is overwritten from the receiving engine (only the enabled tags are re-applied, through use_tags)"""
+    e = F.fn("engine::Engine::deserialize")
+    writes = []
+    for b, i, st in e.statements():
+        if st["k"] == "assign" and st["pl"]["p"]:
+            tgt = e.vexpr_place(st["pl"])
+            writes.append((tgt, e.vexpr_rvalue(st["rv"])[:80]))
+    ok = sorted(t for t, v in writes) == ["$self.blocker", "$self.cosmetic_cache"] and \
+        all(re.match(r"^\$\w+$", v) for t, v in writes)
+    run.ob("C09.4.fixpoint", "decoded-state-installed-verbatim", ok,
+           f"the only field writes of Engine::deserialize are self.blocker = <decoded> and self.cosmetic_cache = <decoded> "
+           f"({writes}); a receiver-side setting copied into the decoded blocker (e.g. enable_optimizations) is serialized "
+           f"again and breaks serialize(deserialize(b)) == b", site=e.loc(0), config=cfg)
